@@ -490,6 +490,12 @@ def math_body_ok(body):
     # of read_args attaches it (\beta{y}[x ...)
     if re.search(r'\\[A-Za-z]+\*?[ \t]*\n?[ \t]*(\{[^{}]*\}|\[[^\[\]]*\])+\[', body):
         return False
+    # blanks between a command (or one of its argument groups) and a following
+    # group are dropped on output (the group is an argument; C01/C08 allow
+    # exactly that): the body is then not reproduced character for character
+    for m in re.finditer(r'\\([A-Za-z]+\*?)((?:\{[^{}]*\}|\[[^\[\]]*\])*)([ \t]*\n?[ \t]*)[\[{]', body):
+        if m.group(3) and not (m.group(1) in ZERO_OPS and not m.group(2)):
+            return False
     # sizing command + delimiter followed by [ or {
     for m in re.finditer(r'\\(left|right|big|Big|bigg|Bigg)(\\[A-Za-z]+|\\[{}]|[()<>\[\]|.])([ \t]*\n?[ \t]*)[\[{]', body):
         return False
